@@ -122,6 +122,21 @@ def table() -> dict[str, Prop]:
                           "strings over a three-letter alphabet up to length 5; no repository code runs"],
              not_decided="full tab / space equivalence of structural whitespace (column arithmetic over runtime tables), and that no "
                          "later rule re-introduces CR / NUL into content"))
+    from .rules import payload_rules as PL
+    reg(Prop("C08", "provenance of recorded text: the content of code_block / fence / html_block / code_inline, the markup and info of "
+             "block tokens and the ordered-list start are built from source slices (src[a:b], src[i], getLines) by an allowed-"
+             "transform list only (PROV); the indent handed to getLines is a column quantity (UNIT); no Unicode-blank-sensitive "
+             "predicate on a verbatim payload, and the code-span padding is removed only under the three documented tests (UBLANK)",
+             [PL.rule_prov, PL.rule_unit, PL.rule_ublank],
+             not_decided="column-exact indentation removal inside getLines and *counts* (the thematic break's markup is one character "
+                         "longer than the marker run: a numeric relation between a counter and a scan, not reported)"))
+    reg(Prop("C09", "the four tables of escapable characters (escape rule, ASCII-punctuation predicate, unescapeAll, ESCAPE_CHAR) denote "
+             "one set, the 32 ASCII punctuation characters; escape and entity emit the placeholder kind text_special carrying the "
+             "literal (TABLES); the placeholder is turned back into text in every list the inline parser fills, image descriptions "
+             "included (LIFE); text accumulators are never overwritten inside their loop (ACCUM)",
+             [PL.rule_tables, TK.rule_life, PL.rule_accum],
+             not_decided="literalness in each of the seven inline contexts for every text t (behaviour of the inline rules on runtime "
+                         "strings), in particular the escape handling inside link titles / destinations"))
     return props
 
 
@@ -133,6 +148,10 @@ NOT_APPLICABLE["C06"] = ("a metamorphic relation between the parses of two diffe
                          "frames) are claimed under C07 and C17 instead")
 
 TECHNIQUE = {
+    "C08": "provenance (taint-style) analysis over reaching definitions with an allowed-transform grammar; unit (column vs "
+           "character) typing of getLines arguments; predicate-dominance check of the padding strip",
+    "C09": "set equality of character tables extracted from literals and regex ASTs; traversal-coverage analysis of the "
+           "placeholder eliminator; accumulator-overwrite lint",
     "C17": "forward dataflow of normalisation facts (no-CRLF / no-CR / no-NUL) through the normalize rule; regex-language "
            "decision of the extracted constants; dimension (absolute vs relative column) check of all tab-stop arithmetic and "
            "bsCount stores; per-iteration definite assignment of the marker flags",
